@@ -4,7 +4,7 @@ concentration in the requested unit / requested total; every non-solvent amount 
 decreased; capacity respected), requests generated constructively so that feasibility is known."""
 from __future__ import annotations
 
-from .common import shard, run_cases, BASE_ASSUMPTIONS
+from .common import shard, run_cases, BASE_ASSUMPTIONS, repo_suite, repo_suite_job
 
 ID = 'C11'
 LEVEL = 'exploration'
@@ -37,12 +37,21 @@ def required_buckets(tier):
 
 
 def plan(tier, seed):
+    jobs = _plan(tier, seed)
+    if tier != 'quick' or False:
+        jobs = jobs + repo_suite_job()
+    return jobs
+
+
+def _plan(tier, seed):
     if tier == 'quick':
         return shard('constructive', 400, 10)
     return shard('constructive', 12000, 32)
 
 
 def run_job(job):
+    if job['kind'] == 'repo_suite':
+        return run_cases(job, repo_suite)
     return run_cases(job, constructive)
 
 
